@@ -767,4 +767,61 @@ def r4_9(run):
     run.floor(3)
 
 
-RULES = [("R4.1", r4_1), ("R4.2", r4_2), ("R4.3", r4_3), ("R4.4", r4_4), ("R4.5", r4_5), ("R4.7", r4_7), ("R4.8", r4_8), ("R4.9", r4_9)]
+def mode_classes(ix):
+    """({modes in which pipeflow runs a hydraulic calculation}, {modes in which it runs a thermal calculation}), from the path
+    conditions of the stage calls in pipeflow()"""
+    from ..arrnf import norm_cond
+    pf = ix.func(P + ".pipeflow")
+    r = ANF(ix, pf, param_alias={pf.params()[0]: "net"}).run()
+    out = {"hydraulics": set(), "heat_transfer": set(), "bidirectional": set()}
+    for c in r.calls():
+        if c.fn[0] != "f":
+            continue
+        nm = c.fn[1].rsplit(".", 1)[-1]
+        if nm not in out:
+            continue
+        for c_, p_ in c.cond:
+            c2, p2 = norm_cond(c_, p_)
+            if not p2 or c2[0] != "cmp":
+                continue        # only the direct guard of the stage (a single comparison of the mode), not composite tests
+            for x in [c2]:
+                if x[0] == "cmp" and x[1] == "in" and x[3][0] in ("list", "tuple", "set") and all(i_[0] == "c" and isinstance(i_[1], str) for i_ in x[3][1]):
+                    out[nm] |= {i_[1] for i_ in x[3][1]}
+                if x[0] == "cmp" and x[1] == "==":
+                    for y in x[2:4]:
+                        if y[0] == "c" and isinstance(y[1], str):
+                            out[nm].add(y[1])
+    if not (out["hydraulics"] and out["heat_transfer"] and out["bidirectional"]):
+        raise AnalysisError("unrecognised shape: the modes under which pipeflow() runs its stages could not be determined: %s" % out)
+    return out["hydraulics"] | out["bidirectional"], out["heat_transfer"] | out["bidirectional"]
+
+
+def r4_10(run):
+    """which supply mask applies to a result depends on the calculation mode; every place that classifies modes must agree with
+    the solver: a test `mode in [...]` over mode names, anywhere in the result extraction and the component models, lists exactly
+    the modes in which pipeflow() runs a hydraulic calculation or exactly those in which it runs a thermal one (a thermal mode
+    missing from one list makes that site mask thermal results by the hydraulic supply)"""
+    ix = run.index
+    hyd, heat = mode_classes(ix)
+    allm = hyd | heat
+    run.ob("mode-classes", hyd == {"hydraulics", "sequential", "bidirectional"} and heat == {"heat", "sequential", "bidirectional"},
+           "pipeflow() calculates hydraulics in %s and heat transfer in %s" % (sorted(hyd), sorted(heat)), P)
+    n = 0
+    for f in ix.all_functions():
+        if not (f.module.startswith("pandapipes.component_models") or f.module == RE_) or ".test." in f.module:
+            continue
+        for node in ast.walk(f.raw_node):
+            if isinstance(node, ast.Compare) and len(node.ops) == 1 and isinstance(node.ops[0], (ast.In, ast.NotIn)) \
+                    and isinstance(node.comparators[0], (ast.List, ast.Tuple, ast.Set)):
+                items = [const_str(e) for e in node.comparators[0].elts]
+                if len(items) >= 2 and all(i_ is not None and i_ in allm for i_ in items):
+                    n += 1
+                    run.analysed(f)
+                    run.ob("mode-test|%s|%s" % (f.short, ",".join(sorted(items))), set(items) in (hyd, heat),
+                           "the mode test lists exactly the hydraulic modes %s or exactly the thermal modes %s" % (sorted(hyd), sorted(heat)),
+                           run.where(f, node))
+    run.stat("mode_tests_checked", n)
+    run.floor(5)
+
+
+RULES = [("R4.1", r4_1), ("R4.2", r4_2), ("R4.3", r4_3), ("R4.4", r4_4), ("R4.5", r4_5), ("R4.7", r4_7), ("R4.8", r4_8), ("R4.9", r4_9), ("R4.10", r4_10)]
